@@ -317,26 +317,56 @@ def hand_tables(ctx, rep):
             rep.check("R2.9", "%s:%s:complete" % (tyname, side), sorted(table.values()) == sorted(sp.values()),
                       "%s %s-side discriminants %s vs spec %s" % (tyname, side, sorted(table.values()), sorted(sp.values())), ctx.loc(ent, it["ln"]))
     rep.floor("R2.9", 4 + 2 * 11 + 2 * 7)
-    # SMALL time units: scale in reader (multiplication) and writer (division)
+    # SMALL time units: the factor the reader applies to UVal inside Duration::from_millis, per variant - from the reader's
+    # decision table on MIR (module helpers inlined), evaluated for two probe values of UVal
+    import tabeval
+    from mirq import inline_calls
+    rn = "<insim::insim::small::SmallType as binrw::binread::BinRead>::read_options"
+    rb = ctx.mir.body(rn)
     ms = ctx.ast.method("SmallType", "read_options", trait="BinRead")
-    if ms:
+    if rb is not None and ms:
         ent, it = ms[0]
-        for m in find_nodes(it["body"], lambda n: n.get("k") == "Match"):
-            for arm in m["arms"]:
-                var = variant_of(arm["body"])
-                if var and var.upper() in spec.smallunit:
-                    mul = find_nodes(arm["body"], lambda n: n.get("k") == "Binary" and n["op"] == "*")
-                    scale = 1
-                    if mul:
-                        try:
-                            scale = int(mul[0]["rhs"]["v"])
-                        except (KeyError, TypeError):
-                            scale = None
-                    unit = spec.smallunit[var.upper()]
-                    want = {"ms": 1, "cs": 10}[unit.rstrip("?")]
-                    rep.check("R2.8", "SmallType::%s:read-unit" % var, scale == want,
-                              "SMALL_%s value unit: reader scales by %s, spec unit %s" % (var.upper(), scale, unit),
-                              ctx.loc(ent, arm["ln"]), sample={"variant": var, "scale": scale})
+        rb = inline_calls(rb, lambda d: d.startswith("insim::insim::small::") and "{closure" not in d, depth=3)
+        probe = [7]
+
+        def leaf(o, m):
+            if o[0] == "field" and o[1][0] == "downcast" and o[1][1][0] == "call" and (o[1][1][1] or "").endswith("Try::branch"):
+                return probe[0]
+            return None
+        model = tabeval.Model(ctx, rb, None, local_prefix="insim::insim::small::", extra_leaf=leaf)
+        seen = {}
+        for r in rb.decision_rows():
+            ret = r[1]
+            if ret[1] != "Ok" or not ret[3]:
+                continue
+            p0 = ret[3][0]
+            if not (p0[0] == "agg" and p0[1][0] == "adt" and str(p0[1][1]).endswith("SmallType") and p0[2]):
+                continue
+            var = p0[1][3]
+            a = p0[2][0]
+            if var.upper() not in spec.smallunit:
+                continue
+            scale = None
+            if a[0] == "call" and (a[1] or "").endswith("Duration::from_millis"):
+                try:
+                    vals = []
+                    for pv in (7, 1000003):
+                        probe[0] = pv
+                        model.ev.reset()
+                        vals.append(model.ev.ev(a[3][0]))
+                    if all(isinstance(v, int) for v in vals) and vals[0] % 7 == 0 and vals[1] == (vals[0] // 7) * 1000003:
+                        scale = vals[0] // 7
+                except (tabeval.Unknown, tabeval.Panic):
+                    scale = None
+            unit = spec.smallunit[var.upper()]
+            want = {"ms": 1, "cs": 10}[unit.rstrip("?")]
+            seen.setdefault(var, set()).add(scale)
+        for var, scales in sorted(seen.items()):
+            unit = spec.smallunit[var.upper()]
+            want = {"ms": 1, "cs": 10}[unit.rstrip("?")]
+            rep.check("R2.8", "SmallType::%s:read-unit" % var, scales == {want},
+                      "SMALL_%s value unit: reader builds the duration as from_millis(UVal * %s), spec unit %s" % (var.upper(), sorted(scales, key=str), unit),
+                      ctx.loc(ent, it["ln"]), sample={"variant": var, "scale": sorted(scales, key=str)})
     rep.floor("R2.8", 5)
 
 
